@@ -33,7 +33,7 @@ def run(ctx):
         for n, workers in sizes:
             make_tree(root, n, rng)
             for driver in ('parblock', 'parfile'):
-                for stall, extra in (((20000, []), (0, [])) if n == 400 else ((0, []), (0, ['--fsync']), (0, ['--no-perms', '--no-timestamps']), (0, ['-L']))):
+                for stall, extra in (((20000, []), (0, [])) if n == 400 else ((0, []), (0, ['--fsync']), (0, ['--no-perms', '--no-timestamps']), (0, ['-L']), (0, ['--ownership']))):
                     shutil.rmtree(root + '/D', ignore_errors=True)
                     plan = [f'stall copy_file_range {stall}'] if stall else []
                     r = scen.run_xcp(root, ['-r', '--driver', driver, '--workers', str(workers)] + extra + ['S', 'D'], plan=plan, timeout=600, nofile=1024, trace=True)
@@ -116,6 +116,25 @@ def run(ctx):
                                                                        theorems=['Xcp.C20.parblock_open_handles_bounded']),
                               f'measured peak {peak} exceeds the model bound {bound} ({nsp} sparse files, {workers} workers)', no_input=True)
         subprocess.run(['rm', '-rf', root + '/S', root + '/D'])
+        # ---- many SOURCE OPERANDS (xcp -r p* dst) under a small descriptor limit, every directory read slowed down: the sources are
+        # walked one after the other, so the number of operands does not show in the number of open directories
+        subprocess.run(['rm', '-rf', root + '/S', root + '/D', root + '/P'])
+        os.makedirs(root + '/P')
+        nops = 120
+        for i in range(nops):
+            os.makedirs(f'{root}/P/p{i}'); open(f'{root}/P/p{i}/f', 'wb').write(b'x')
+        for workers in (2, 4):
+            subprocess.run(f'rm -rf {root}/D; mkdir {root}/D', shell=True)
+            r = scen.run_xcp(root + '/P', ['-r', '--driver', 'parfile', '--workers', str(workers)] + [f'p{i}' for i in range(nops)] + ['../D'], plan=['stall getdents64 60000'], timeout=300,
+                             env_extra={'SUP_CHILD_NOFILE': '48'}, trace=True)
+            peak = r.final.get('peak_fds', -1)
+            ncopied = sum(len(fs) for _, _, fs in os.walk(root + '/D'))
+            ctx.count(f'many_operands.parfile.exit.{r.cls}'); ctx.case(('many-operands', workers), True, sample=dict(operands=nops, driver='parfile', workers=workers, child_nofile=48, peak_descriptors=peak))
+            peaks[('many-operands', workers)] = peak
+            if r.cls != '0' or ncopied != nops:
+                ctx.violation(f'many-operands-{workers}.json', dict(operands=nops, workers=workers, exit=r.cls, copied=ncopied, peak=peak, stderr=r.stderr[-300:]),
+                              f'C20: copying {nops} source operands under RLIMIT_NOFILE=48 with slow directory reads failed or is incomplete ({r.cls}, {ncopied} of {nops} files, peak {peak}): {r.stderr.strip()[-100:]}')
+        subprocess.run(['rm', '-rf', root + '/P', root + '/D'])
         # ---- finalisation FAILS for every file (fchmod refused: a destination owned by someone else): whatever is logged or
         # reported, the descriptors must still be closed — 1200 files under the limit
         make_tree(root, 1200, rng)
@@ -154,7 +173,7 @@ def run(ctx):
                               f'measured peak {peak} exceeds the model bound {bound} with {ndirs} non-default-mode directories ({driver}, {dextra})', no_input=True)
         subprocess.run(['rm', '-rf', root + '/S', root + '/D'])
     ctx.cov['peaks'] = {str(k): v for k, v in peaks.items()}
-    ctx.cov['rule'] = 'trees of 400..3000 (thorough: ..20000) small files x driver x workers x {no stall, every copy_file_range stalled}; RLIMIT_NOFILE=1024; a tree 1100 directories deep; 700 (thorough 3000) sparse files with stalled pool threads; 1200 files with every fchmod failing; 1200 directories with non-default modes, also with --fsync; -L on the 1200/3000-file trees. distinct = distinct (files, workers, driver, stall)'
+    ctx.cov['rule'] = 'trees of 400..3000 (thorough: ..20000) small files x driver x workers x {no stall, every copy_file_range stalled}; RLIMIT_NOFILE=1024; a tree 1100 directories deep; 700 (thorough 3000) sparse files with stalled pool threads; 1200 files with every fchmod failing; 1200 directories with non-default modes, also with --fsync; -L and --ownership on the 1200/3000-file trees; 120 source operands under RLIMIT_NOFILE=48 with slow directory reads. distinct = distinct (files, workers, driver, stall)'
     ctx.assumptions += ['descriptors = 2 per open CopyHandle + a constant (stdio, directory handles); crossbeam/threadpool internals hold no descriptors']
 
 
